@@ -20,7 +20,7 @@ PROPS = {
     "C11": _p(4000, 60000),
     "C13": _p(4000, 60000),
     "C18": _p(4000, 60000),
-    "C03": _p(4000, 60000, tb=["url.Parse / ResolveReference (dot segments) are stdlib glue"]),
+    "C03": _p(4000, 60000, tb=["url.Parse / EscapedPath are stdlib glue; dot-segment removal is the keyer's own and modelled"]),
     "C04": _p(4000, 60000, tb=["q-value normaliser classes (Accept*, TE) are not generated: glue"]),
     "C07": _p(4000, 60000),
     "C08": _p(4000, 60000),
